@@ -429,3 +429,74 @@ def rets_after(view, patterns):
             if cs.dest['l'] == 0 and cs.bb in r:
                 out.add('Err')
     return out
+
+
+# ---------------------------------------------------------------------------------------------
+# accumulator freeze: a running total is complete before anything derived from it is computed
+def _operand_reads(node, local):
+    """Count operand/borrow uses of bare local `local` anywhere inside a JSON rvalue/terminator."""
+    n = 0
+    if isinstance(node, dict):
+        pl = node.get('pl')
+        if node.get('k') in ('copy', 'move', 'ref') and isinstance(pl, dict) and pl.get('l') == local and not pl.get('p'):
+            n += 1
+        for k, x in node.items():
+            if k in ('lhs', 'dest'):
+                continue
+            n += _operand_reads(x, local)
+    elif isinstance(node, list):
+        for x in node:
+            n += _operand_reads(x, local)
+    return n
+
+
+def accumulators(view):
+    """Named integer locals that are self-incremented (`a += x`): local -> name."""
+    out = {}
+    for (i, j, s) in view.stmts():
+        if s['k'] == 'assign' and s['rv'].get('k') == 'bin' and s['rv'].get('op') in ('AddWithOverflow', 'Add'):
+            a = s['rv']['a']
+            if a.get('k') in ('copy', 'move') and not a['pl']['p'] and a['pl']['l'] in view.varnames:
+                out[a['pl']['l']] = view.varnames[a['pl']['l']]
+    return out
+
+
+def accumulator_freeze(view, local):
+    """-> (increments, external_reads, late) where `late` lists (read_pos, def_pos) pairs such that
+    a definition/increment of the accumulator is reachable strictly after a use of its value by
+    something other than its own increment.  Positions are (bb, stmt index | 'term', line)."""
+    incs, defs, reads = [], [], []
+    tmp_of_inc = set()
+    for (i, j, s) in view.stmts():
+        if s['k'] != 'assign':
+            continue
+        rv = s['rv']
+        is_inc = rv.get('k') == 'bin' and rv.get('op') in ('AddWithOverflow', 'Add') and rv['a'].get('k') in ('copy', 'move') and rv['a']['pl']['l'] == local and not rv['a']['pl']['p']
+        if is_inc:
+            incs.append((i, j, s['ln']))
+            tmp_of_inc.add(s['lhs']['l'])
+            # the increment's own right operand may still read the accumulator (a += a): ignore
+            continue
+        if s['lhs']['l'] == local and not s['lhs']['p']:
+            defs.append((i, j, s['ln']))
+            if _operand_reads(rv, local) == 0 and not (rv.get('k') == 'use' and rv['op'].get('k') in ('copy', 'move') and rv['op']['pl']['l'] in tmp_of_inc):
+                pass
+            continue
+        if _operand_reads(rv, local):
+            reads.append((i, j, s['ln']))
+    for i in view.live_blocks():
+        t = view.blocks[i]['term']
+        if t['k'] == 'assert':
+            continue
+        if t['k'] == 'call' and t['dest']['l'] == local and not t['dest']['p']:
+            defs.append((i, 10 ** 6, t['ln']))
+        if _operand_reads({k: v for k, v in t.items() if k not in ('dest',)}, local):
+            reads.append((i, 10 ** 6 - 1, t['ln']))
+    succ, _, _ = view.graph()
+    late = []
+    for r in reads:
+        after = view.reach(list(succ[r[0]]))
+        for d in incs + defs:
+            if (d[0] == r[0] and d[1] > r[1]) or d[0] in after:
+                late.append((r, d))
+    return incs, reads, late
